@@ -47,7 +47,7 @@ theorem mixed_chunking_independent {P : Bytes → Bool} {cfg : Cfg} {dv : LineDe
     exchanges took place — in particular both stop at the same interaction-complete answer), and
     leave the device at the same point of its script. -/
 theorem interact_chunking_independent {cfg : Cfg} {complete : List Bytes} (hstrict : cfg.rough = false)
-    (hret : cfg.ret = [NL]) (ps : List (Ev × Step)) (hne : ps ≠ []) (extra : List Step)
+    (hret : cfg.ret = [NL]) (ps : List (Ev × Step)) (extra : List Step)
     (hg : ∀ p ∈ ps, ∃ Pr Pc, GoodStep cfg complete Pr Pc p.1 p.2)
     (res : Bytes) (hres : ∀ x ∈ res, isHws x = true) (cuts1 cuts2 : List Nat) :
     ∃ raw1 raw2 r w1 w2 d,
@@ -61,9 +61,9 @@ theorem interact_chunking_independent {cfg : Cfg} {complete : List Bytes} (hstri
   obtain ⟨raw2, w2, h2, _, _, _, wr2⟩ :=
     interact_exact hstrict hret ps extra hg { avail := res, cuts := cuts2 } hres
   obtain ⟨raw1', s1, n1⟩ :=
-    interact_result_normalized hstrict hret ps hne extra hg { avail := res, cuts := cuts1 } hres
+    interact_result_normalized hstrict hret ps extra hg { avail := res, cuts := cuts1 } hres
   obtain ⟨raw2', s2, n2⟩ :=
-    interact_result_normalized hstrict hret ps hne extra hg { avail := res, cuts := cuts2 } hres
+    interact_result_normalized hstrict hret ps extra hg { avail := res, cuts := cuts2 } hres
   rw [h1] at n1; rw [h2] at n2
   simp only [Option.some.injEq, Prod.mk.injEq] at n1 n2
   obtain ⟨⟨_, e1⟩, _⟩ := n1
